@@ -25,7 +25,7 @@ ASSUMPTIONS = ["targets are reachable from the start (the statement quantifies o
 
 def cases(seed, tier):
     rng = random.Random(seed * 2654435761 % (2 ** 31) + 9)
-    n = 420 if tier == "quick" else 9000
+    n = 420 if tier == "quick" else 90000
     out = []
     for i in range(n):
         out.append({"gen": ["polyline", "surface", "surface", "volume"][i % 4], "seed": rng.randrange(2 ** 31),
